@@ -31,6 +31,27 @@ func ruleAssignToken(c *Ctx, rule string) {
 				n++
 				c.seen(fnName(fn))
 				rows, ids, err := truthTable(L, fn.Blocks[0], st, st.Val)
+				// the token may be chosen by a private helper: one table per return of the helper
+				if hc, isCall := resolve(st.Val).(*ssa.Call); isCall && err == "" {
+					if h := hc.Common().StaticCallee(); h != nil && h.Pkg == fn.Pkg && len(h.Blocks) > 0 && strings.HasSuffix(h.Signature.Results().String(), "go/token.Token)") {
+						rows, ids = nil, nil
+						seenID := map[string]bool{}
+						for _, r := range returnsOf(h) {
+							rs, is, e := truthTable(L, h.Blocks[0], r, r.Results[0])
+							if e != "" {
+								err = e
+							}
+							rows = append(rows, rs...)
+							for _, id := range is {
+								if !seenID[id] {
+									seenID[id] = true
+									ids = append(ids, id)
+								}
+							}
+						}
+						c.seen(fnName(h))
+					}
+				}
 				if err != "" {
 					c.undecided(rule, fnName(fn)+":AssignStmt.Tok", err)
 					continue
@@ -167,7 +188,32 @@ func ruleWaitBeforeReturn(c *Ctx, rule string) {
 			}
 		}
 	}
-	c.check(nWait >= 2, rule, "generateAsyncWaitStatements:both-branches-wait", "-", "both forms of the wait statement (with and without error result) call Wait on the group", fmt.Sprintf("%d Wait templates", nWait))
+	// counted per returned list (a Wait call built once and shared by both forms counts for both)
+	if wf := waitCall.Common().StaticCallee(); wf != nil && len(wf.Blocks) > 0 {
+		nWait = 0
+		for _, r := range returnsOf(wf) {
+			if len(r.Results) == 1 && nodeTreeContains(wf, r.Results[0], func(al *ssa.Alloc) bool {
+				if nm, _ := isAstNodeType(al.Type()); nm != "SelectorExpr" {
+					return false
+				}
+				for _, st := range storesInto(al) {
+					if fa, ok := st.Addr.(*ssa.FieldAddr); ok && fieldKey(fa) == "go/ast.SelectorExpr.Sel" {
+						if call, ok := resolve(st.Val).(*ssa.Call); ok && calleeOf(call.Common()) == "go/ast.NewIdent" {
+							if s, ok := constString(call.Common().Args[0]); ok && s == "Wait" {
+								return true
+							}
+						}
+					}
+				}
+				return false
+			}) {
+				nWait++
+			}
+		}
+		c.check(nWait == len(returnsOf(wf)) && nWait >= 2, rule, "generateAsyncWaitStatements:both-branches-wait", "-", "both forms of the wait statement (with and without error result) call Wait on the group", fmt.Sprintf("%d of %d returned lists contain <group>.Wait()", nWait, len(returnsOf(wf))))
+	} else {
+		c.check(nWait >= 2, rule, "generateAsyncWaitStatements:both-branches-wait", "-", "both forms of the wait statement (with and without error result) call Wait on the group", fmt.Sprintf("%d Wait templates", nWait))
+	}
 }
 
 // ruleChainWrapped (C03.5 / C05.2 / C08.2)
